@@ -7,6 +7,7 @@ The plan is open-loop: arguments are relative selectors that the executor resolv
 object's current element list, so plans stay meaningful when the shrinker deletes steps.
 """
 import copy
+import math
 import random
 import signal
 import time
@@ -435,6 +436,13 @@ def gen_plan(prop, seed, tier):
                 else:
                     op["nodes"].append(["bad", rng.choice(["str", "none"])])
         ops.append(op)
+    # a self-contained closing step (drawn from a generator of its own: every other decision of the plan is unchanged):
+    # normalize() of a fresh int / float vector whose last span is far below one ulp of the whole interval, so that the
+    # float image cannot keep the multiplicities - it has to be refused (vector unchanged) or come out well-formed
+    rng2 = random.Random((seed * 0x9E3779B97F4A7C15 + 0x7654321) % (1 << 64))
+    if prop == "C03" and rng2.random() < 0.25:
+        ops.append({"op": "normalize_wide", "form": rng2.choice(["int-right", "int-right", "float-adjacent", "int-left"]),
+                    "p": rng2.randint(0, 3), "m": rng2.randint(1, 4), "H": str(rng2.choice([10 ** 17, 2 ** 60, 10 ** 20 + 3, 3 * 10 ** 18]))})
     return {"property": prop, "engine": "kv", "seed": seed, "tier": tier, "config": cfg, "ops": ops}
 
 
@@ -1212,6 +1220,43 @@ class KVEngine:
                               exact=all(isinstance(x, Fraction) for x in raw) and not isf_pre)
         return {"res": res, "touched": {t}}
 
+    def op_normalize_wide(self, op, ctx, cfg, J03, J18):
+        p, H = op["p"], int(op["H"])
+        m = max(1, min(op["m"], p + 1))
+        if op["form"] == "int-right":
+            L = [0] * (p + 1) + [H] * m + [H + 1] * (p + 1)
+        elif op["form"] == "int-left":
+            L = [0] * (p + 1) + [1] * m + [H] * (p + 1)          # control: the small span sits next to 0 and survives
+        else:
+            L = [-1.0] * (p + 1) + [0.0] * m + [math.nextafter(1.0, 0.0)] * m + [1.0] * (p + 1)
+        try:
+            kv = self.KnotVector(L)
+        except Exception as e:  # noqa
+            ctx.count("normalize_wide_not_constructible:" + type(e).__name__)
+            return {"res": "skip", "touched": set()}
+        pre = self.snapshot(kv)
+        ctx.probe("normalize-beyond-float-resolution:" + op["form"])
+        try:
+            kv.normalize()
+        except Exception as e:  # noqa
+            ctx.oracle("refusal-atomic")
+            if J03 and self.snapshot(kv) != pre:
+                ctx.fail("refusal-not-atomic", "normalize-wide", "normalize raised %s but the vector changed" % type(e).__name__)
+            return {"res": "raise:" + type(e).__name__, "touched": set()}
+        ctx.oracle("wellformed")
+        try:
+            post = [M.Fr(x) for x in list(kv)]
+        except (TypeError, ValueError):
+            post = None
+        q = None if post is None else M.wellformed(post)
+        if J03 and (q is None or len(post) != len(L)):
+            ctx.fail("illformed", "after-normalize-wide", "normalize() of %r was accepted and left %r, which is not a clamped knot vector"
+                     % (L, list(kv)))
+        elif J03 and (kv.degree != q or kv.npts != len(post) - q - 1):
+            ctx.fail("query-mismatch", "degree-npts", "after normalize() degree/npts = %r/%r, element list says %d/%d"
+                     % (kv.degree, kv.npts, q, len(post) - q - 1))
+        return {"res": "ok", "touched": set()}
+
     def _basis_before(self, kv, enabled):
         """Library basis values before an affine map (for the reparametrisation-invariance by-product)."""
         if not enabled or len(kv) > 24:
@@ -1227,7 +1272,7 @@ class KVEngine:
             vals = [tuple(M.Fr(v) for v in f(u)) for u in us]
         except Exception:  # noqa  (C02 territory; the by-product is simply dropped)
             return None
-        return us, vals
+        return us, vals, f
 
     def judge_affine(self, ctx, label, pre, kv, s, a, basis0, exact=None):
         """post[i] == s * pre[i] + a; degree, npts and multiplicities preserved."""
@@ -1275,7 +1320,7 @@ class KVEngine:
                      % (label, None if got is None else [M.enc(x) for x in got], [M.enc(x) for x in want_knots]))
             return
         if basis0 is not None and exact and all(isinstance(x, Fraction) for x in raw):
-            us, vals = basis0
+            us, vals, f_old = basis0
             ctx.oracle("reparametrisation-invariance")
             try:
                 f = self.Function(kv)
@@ -1284,6 +1329,16 @@ class KVEngine:
                     if v1 != v0:
                         ctx.fail("reparametrisation", label, "basis values changed under the affine map at u=%s" % M.enc(u))
                         return
+                if f_old.knotvector is kv:
+                    # the Function object that was evaluated before the map holds this very KnotVector: it is now the basis
+                    # over s*U+a and has to answer like a freshly built one
+                    ctx.probe("reparametrisation-same-function-object")
+                    for u, v0 in zip(us, vals):
+                        v1 = tuple(M.Fr(v) for v in f_old(s * u + a))
+                        if v1 != v0:
+                            ctx.fail("reparametrisation", label + "-same-object", "a Function evaluated before %s of its knot vector "
+                                     "answers differently afterwards at the mapped node (u=%s)" % (label, M.enc(u)))
+                            return
             except core_Violation:
                 raise
             except Exception as e:  # noqa
